@@ -225,6 +225,14 @@ def _oracle(op: str, out: str):
         if out != ref:
             return "Key.verify (through DER) differs from Generator.verify: %s vs %s" % (out, ref)
         return None
+    if k in ("ossl_sign", "ossl_verify", "ossl_recover"):
+        # model side: Generator.* over the GLUE MODEL of the OpenSSL class; on the implementation alone: the OpenSSL class
+        # answers what the pure class answers (for recovery: whenever r >= 0, the domain of C01_native_recover)
+        name = split_curve(a[1])[0]
+        ref = cc.impl(" ".join([k[5:], name + "/pure"] + a[2:]))
+        if ref != out:
+            return "the OpenSSL class and the pure class disagree on identical input: OpenSSL %s, pure %s" % (out[:160], ref[:160])
+        return None
     if k == "recover":
         tok = a[1]
         n = consts(tok)[5]
@@ -353,6 +361,23 @@ def gen(ctx, emit):
                 emit("recover %s %d %d %d 1" % (tok, z0, r, s))
                 emit("recover %s %d %d %d ~" % (tok, z0, r, n - s))
                 emit("recover %s %d %d %d ~" % (tok, z0 + 1, r, s))
+            if cfg == "openssl" and so.startswith("ok "):
+                # the same through the GLUE MODEL of native/openssl.py (Lean: Gen.* over Ossl.methods over the pure-model libcrypto)
+                emit("ossl_sign %s %d %d" % (tok, d0, z0), "ossl-glue")
+                emit("ossl_sign %s 1 %d" % (tok, two256 - 1), "ossl-glue")
+                emit("ossl_sign %s 1 0" % tok, "ossl-glue")
+                for rr, ss in ((r, s), (r, n - s), (0, s), (r, n), (r ^ 1, s)):
+                    emit("ossl_verify %s %s %d %d %d" % (tok, Q, z0, rr, ss), "ossl-glue")
+                emit("ossl_verify %s %s %d %d %d" % (tok, Q2, z0, r, s), "ossl-glue")
+                emit("ossl_verify %s %d,%d 1 %d 1" % (tok, gx, gy, n - 1), "ossl-glue")          # the sum is infinity
+                emit("ossl_verify %s %s %d %d %d" % (tok, Q, n, r, s), "ossl-glue")               # u1*G is infinity
+                emit("ossl_recover %s %d %d %d ~" % (tok, z0, r, s), "ossl-glue")
+                emit("ossl_recover %s %d %d %d 1" % (tok, z0, r, n - s), "ossl-glue")
+                # r without an inverse mod n (r = n < p on secp256k1; r = 0 is an abscissa of secp256r1): AssertionError in both classes
+                for rr in (0, n, 1, p - 1, p):
+                    emit("ossl_recover %s 5 %d 3 ~" % (tok, rr), "ossl-glue")
+                    emit("recover %s 5 %d 3 ~" % (tok, rr), "ossl-glue")
+                    emit("recover %s/pure 5 %d 3 ~" % (name, rr), "ossl-glue")
             if name == "secp256k1" and so.startswith("ok "):
                 # Key.sign / Key.verify (DER wrapper) of the BTC Key class
                 for d in (1, 2, n - 1, d0):
